@@ -291,6 +291,13 @@ def check(ctx, case):
                 F("image:titles-collide", "%r all resolve to %s" % (sorted(ts), path))
     finally:
         if w is not None:
+            # each SqliteDict owns a thread; release them, or thousands of cases exhaust the address space
+            for name in ("authors", "html", "imageinfo"):
+                db = getattr(getattr(w, "nuwiki", None), name, None)
+                try:
+                    getattr(db, "database", db).close()
+                except Exception:
+                    pass
             try:
                 w.clear()
             except Exception:
